@@ -46,6 +46,13 @@ class _HTTP2ProbeCache:
             key_lock.release()
             raise
 
+        # Only the thread that is going to probe (value is None) keeps the lock
+        # until it calls set_and_release(). A thread that waited for another
+        # thread's probe and now sees its result must not keep the lock, or
+        # every later waiter for this origin would block forever.
+        if value is not None:
+            key_lock.release()
+
         return value
 
     def set_and_release(
